@@ -45,7 +45,7 @@ PROPS = {
                     "Hannibal.Props.C07O", "Hannibal.Props.C07OCurrent"],
         "theorems": ["Hannibal.C07_holds", "Hannibal.C07_current", "Hannibal.wellWired07_current",
                      "Hannibal.C07o_holds", "Hannibal.C07o_current"],
-        "cases": {"quick": {"C07": 1500}, "thorough": {"C07": 20000, "x:C07": 320, "C03": 3000}},
+        "cases": {"quick": {"C07": 1500, "C09@brk09": 800}, "thorough": {"C07": 20000, "x:C07": 320, "C03": 3000, "C09@brk09": 8000}},
         "assumptions": COMMON_ASSUMPTIONS + [
             "the order clause and 'a non-restartable spawn ignores the request altogether' (monC07o) are theorem "
             "C07o_holds under WellWired05 and wf01 (fresh message numbers / operation ids, checked on every real trace)",
@@ -189,7 +189,7 @@ PROPS = {
         "theorems": ["Hannibal.C06_holds", "Hannibal.C06_current", "Hannibal.wellWired06_current", "Hannibal.monC06_split",
                      "Hannibal.C06s_holds", "Hannibal.C06s_current", "Hannibal.C06q_holds", "Hannibal.C06q_current",
                      "Hannibal.C06r_holds", "Hannibal.C06g_holds"],
-        "cases": {"quick": {"C06": 1500}, "thorough": {"C06": 20000, "x:C06": 320, "C02": 3000, "C11": 3000}},
+        "cases": {"quick": {"C06": 1500, "C16@sys16": 600}, "thorough": {"C06": 20000, "x:C06": 320, "C02": 3000, "C11": 3000, "C16@sys16": 6000}},
         "assumptions": COMMON_ASSUMPTIONS + [
             "single-actor part: 'children are released and stop gracefully', 'the registry treats it as not running' "
             "and 'other actors keep working' are the multi-actor clauses; they are carried by C16 (release at any "
